@@ -391,3 +391,19 @@ fn c13_overflow_bit_all_types() {
     kani::cover!(before && any_full && cnt[4] == caps[4] as usize && caps[4] != 0);
     std::mem::forget(b);
 }
+
+// @harness c03_capacity_is_sum_of_type_limits
+// @props C03,C13
+// @tier quick
+// @timeout 300
+// @units EventBufferConfig::{new, max_events}
+// @bounds every combination of the eight per-type limits (each 0..=65535): the shared event list is sized for their SUM, so an insert that passes its per-type limit check always finds a free slot (an undersized list drops the event silently: `VecList::add` returning None is not reported)
+#[kani::proof]
+#[kani::unwind(2)]
+fn c03_capacity_is_sum_of_type_limits() {
+    let m: [u16; 8] = kani::any();
+    let c = EventBufferConfig::new(m[0], m[1], m[2], m[3], m[4], m[5], m[6], m[7]);
+    let sum = m[0] as usize + m[1] as usize + m[2] as usize + m[3] as usize + m[4] as usize + m[5] as usize + m[6] as usize + m[7] as usize;
+    assert!(c.max_events() == sum);
+    kani::cover!(m[6] > m[5]);
+}
